@@ -15,3 +15,5 @@ pub mod c10;
 pub mod c20;
 pub mod c18;
 pub mod c04;
+pub mod c02;
+pub mod c06;
